@@ -225,9 +225,16 @@ def queue_rules(fb, R):
         # (an extracted `take_front(value)` is part of wait_and_pop/try_pop); the helpers themselves are not entry points
         from ..c09_util import normalized
         nfns = []
+        called_helpers = set()
+        for fn in fns:
+            for n_ in fn.all_nodes():
+                if n_.get('k') == 'call' and n_.get('rcls') == Q and (fn.sn(n_.get('recv')) or {'k': 'this'}).get('k') == 'this':
+                    called_helpers.add(n_.get('u'))
         for fn in fns:
             if fn.usr in locked:
                 continue
+            if fn.access in ('private', 'protected') and fn.usr in called_helpers:
+                continue    # part of its callers' normal form
             try:
                 nfns.append(normalized(fb, fn))
             except Exception:  # noqa: BLE001 - fall back to the body as written
@@ -390,6 +397,73 @@ def _bounded_wait_loop(fb, fn, F, prod, need_max=True):
     return False
 
 
+
+def _path_search_flags(fn, start, is_target, is_barrier, edge_ok=None):
+    """path_search that is sensitive to boolean locals which are only ever set to constants (the `__result` of an inlined helper, a
+    `done` flag): a branch on such a local (or its negation) is followed only along the edge consistent with the constant stored on the path."""
+    pos = fn.positions()
+    if start not in pos:
+        return None
+    b0, i0 = pos[start]
+    const_vars = {}
+    for n in fn.all_nodes():
+        if n.get('k') == 'decl':
+            for v in n.get('vars', []):
+                if v.get('init') is not None and v.get('t') in ('bool', 'const bool'):
+                    cv = fn.const_value(v['init'])
+                    const_vars.setdefault(v['name'], set()).add(cv)
+    flags = {nm for nm, vals in const_vars.items() if None not in vals}
+
+    def flag_of(cid):
+        x = fn.sn(cid)
+        neg = False
+        while x is not None and x.get('k') == 'unop' and x.get('op') == '!':
+            neg = not neg
+            x = fn.sn(x['sub'])
+        if x is not None and x.get('k') == 'var' and x.get('name') in flags:
+            return x['name'], neg
+        return None
+    stack = [(b0, i0 + 1, (), [])]
+    seen = set()
+    while stack:
+        b, i, st, path = stack.pop()
+        st = dict(st)
+        blocked = False
+        for e in fn.blocks[b]['elems'][i:]:
+            if is_target(e):
+                return path + [e]
+            if is_barrier(e):
+                blocked = True
+                break
+            n = fn.nodes[e]
+            if n.get('k') == 'decl':
+                for v in n.get('vars', []):
+                    if v['name'] in flags and v.get('init') is not None:
+                        st[v['name']] = fn.const_value(v['init'])
+        if blocked:
+            continue
+        if b == fn.exit:
+            if is_target(('exit', b)):
+                return path + [('exit', b)]
+            continue
+        blk = fn.blocks[b]
+        fl = flag_of(blk['cond']) if 'cond' in blk and len(blk['succs']) == 2 else None
+        for idx, s_ in enumerate(blk['succs']):
+            if s_ is None:
+                continue
+            if edge_ok is not None and not edge_ok(b, idx, s_):
+                continue
+            if fl is not None and fl[0] in st and st[fl[0]] is not None:
+                truth = bool(st[fl[0]]) != fl[1]          # value of the condition
+                if (idx == 0) != truth:
+                    continue
+            key = (s_, tuple(sorted(st.items())))
+            if key in seen:
+                continue
+            seen.add(key)
+            stack.append((s_, 0, tuple(sorted(st.items())), path + [('B', s_)]))
+    return None
+
 def _queue_shapes(fb, R, rec, fns, F, cons, prod, all_raw=()):
     byname = {}
     for f in fns:
@@ -449,7 +523,7 @@ def _queue_shapes(fb, R, rec, fns, F, cons, prod, all_raw=()):
                     if c is not None and c.get('k') == 'member' and c['name'] == F['max']:
                         return False  # unbounded queue: producers never wait
                 return True
-            w = path_search(fn, p['id'], exit_t, lambda e: e in notes, edge_ok)
+            w = _path_search_flags(fn, p['id'], exit_t, lambda e: e in notes, edge_ok)
             R.check(w is None, 'Q3-remove-notifies-producers', '%s#remove' % fn.q, fn.loc(p['id']),
                     'after removing from %s there is a path to the exit of %s without notify on %s (bounded queue): %s'
                     % (F['queue'], fn.q, prod, describe_path(fn, w)))
